@@ -141,3 +141,17 @@ pub open spec fn creation_flags(bits: i32) -> bool { bits & (libc::O_CREAT | lib
 pub open spec fn exists_procfs_link(body: Seq<u8>) -> bool { exists|l: int| (#[trigger] link_body_of(l, body)) && is_procfs(l) }
 pub uninterp spec fn requested_flags_of(fd: int) -> i32;   // open flags a reopen / procfs open was asked for
 pub uninterp spec fn cwd_id() -> int;   // the AT_FDCWD pseudo-descriptor
+/// `rustix::io::dup` (dup(2)): the copy shares the open file description but is NOT close-on-exec; the library's
+/// own duplication goes through `try_clone_to_owned` (F_DUPFD_CLOEXEC).  Modelled so that code using it is judged
+/// by the contracts instead of being outside the verified subset.
+pub mod rustix {
+    pub mod io {
+        use super::super::*;
+        #[verifier::external_body]
+        pub fn dup<Fd: AsFd>(fd: Fd) -> (r: Result<OwnedFd, super::super::Errno>)
+            ensures r matches Ok(n) ==> same_description(n.id(), fd.fd_id()) && lineage(n.id()) == lineage(fd.fd_id())
+                && is_procfs(n.id()) == is_procfs(fd.fd_id()) && mnt_checked(n.id()) == mnt_checked(fd.fd_id())
+                && mnt_of(n.id()) == mnt_of(fd.fd_id()) && ino_of(n.id()) == ino_of(fd.fd_id())
+        { unimplemented!() }
+    }
+}
